@@ -183,6 +183,7 @@ fn deviations(toks: &[Tok]) -> Vec<Dev> {
             }
         }
         v.push(Dev::Sep(g, " // c\n".to_string()));
+        v.push(Dev::Sep(g, " //é 😀 stel x = 1; \"\n".to_string()));
         v.push(Dev::Sep(g, "  \n\t ".to_string()));
         if may_touch(&toks[g].text, &toks[g + 1].text) {
             v.push(Dev::Sep(g, String::new()));
